@@ -298,7 +298,9 @@ class Check(PropCheck):
             ths = []
             for _ in range(nt):
                 ths.append([self.rand_event(rng, len(pool), 2, slots=False) for _ in range(rng.randint(20, 60))])
-            yield Case({'kind': 'threads', 'bound': b, 'exprs': pool, 'trees': trees, 'threads': ths}, 'threads')
+            sched = [i for i, th in enumerate(ths) for _ in range(2 * len(th))]
+            rng.shuffle(sched)
+            yield Case({'kind': 'threads', 'bound': b, 'exprs': pool, 'trees': trees, 'threads': ths, 'sched': sched}, 'threads')
 
     def rand_event(self, rng, ne, nt, recent=None, slots=True):
         r = rng.random()
@@ -434,7 +436,7 @@ class Check(PropCheck):
             ths = d['threads']
             for i in range(len(ths)):
                 if len(ths) > 2:
-                    yield dict(d, threads=ths[:i] + ths[i + 1:])
+                    yield dict(d, threads=ths[:i] + ths[i + 1:], sched=[])
             for i, th in enumerate(ths):
                 if len(th) > 1:
                     yield dict(d, threads=ths[:i] + [th[:len(th) // 2]] + ths[i + 1:])
@@ -449,7 +451,7 @@ class Check(PropCheck):
             return [e[0]] + list(e[1:3])
         if d['kind'] == 'hist':
             return sx('hist', b, oks, rs, [ev(e) for e in d['events']])
-        return sx('threads', b, oks, rs, [[ev(e) for e in th] for th in d['threads']])
+        return sx('threads', b, oks, rs, [[ev(e) for e in th] for th in d['threads']], list(d.get('sched', [])))
 
     def _keymap(self, d):
         return {sha(t): i for i, t in enumerate(d['exprs'])}
